@@ -9,14 +9,17 @@ from ..suites_ops import K4Sem
 from .refsem import attributed, load_corpus, suite
 
 PROPERTY = "C16"
-LEAN_MODULES = ["DAVerif.Props.C16", "DAVerif.Props.C01joins", "DAVerif.Props.C16full"]
+LEAN_MODULES = ["DAVerif.Props.C16", "DAVerif.Props.C01joins", "DAVerif.Props.C16full", "DAVerif.Props.C01all", "DAVerif.Props.C16nested"]
 THEOREMS = ["DAVerif." + t for t in (
     "C16_ref_is_sql", "C16_sem_ref_join", "C16_outer_is_full", "C16_null_keys_never_match", "C16_pandas_partial",
     "C16_pandas_is_sql_partial", "C16_pandas_nullkeys_necessary", "C16_pandas_cross", "C16_pandas_cross_is_sql",
     "C16_cross_as_outer_partial", "C16_cross_as_outer_necessary", "C16_diffkeys", "C16_coalesce",
     # the SQL side: the generated join query evaluates to the reference join (Props/C01joins.lean, Props/C16full.lean)
     "C16_sql_native", "C16_sql_native_generic", "C16_sqlite_inner_left_cross", "C16_sqlite_right_as_left", "C16_diffkeys_sql",
-    "C16_sqlite_full_scope", "C16_sqlite_full_partial", "C16_sqlite_full_nullkeys_necessary", "C16_reachable_joinwf")]
+    "C16_sqlite_full_scope", "C16_sqlite_full_partial", "C16_sqlite_full_nullkeys_necessary", "C16_reachable_joinwf",
+    # for every SQL generator configuration, and the emulated joins anywhere in a pipeline (Props/C01all.lean, C16nested.lean)
+    "C16_sql_native_all", "C16_diffkeys_sql_all", "C16_sqlite_right_as_left_all", "C16_sqlite_full_partial_all",
+    "C01_translation_sound_sqlite_five_joins", "C16_nested_fullkeys_necessary")]
 ASSUMPTIONS = [
     "the relational model `semJoin SemCfg.pandas` is pandas_base._natural_join_step: tied by suite k4_sem on every run",
     "guard G_nonNullKeys (no key pair has a null on both sides) for the Pandas executor: outside it pandas.merge matches "
